@@ -28,6 +28,9 @@ pub struct SchedCase
     pub goal: Option<u16>,
     pub clean: bool,
     pub scheds: Vec<Sched>,
+    /// run the whole scenario under the coarse clock (files written in one invocation share an mtime)
+    #[serde(default)]
+    pub coarse: bool,
 }
 
 pub struct Prepared
@@ -41,7 +44,7 @@ pub struct Prepared
 
 pub fn prepare(c: &SchedCase) -> Result<Prepared, String>
 {
-    let mut w = World::new(&c.graph, Clock::Distinct);
+    let mut w = World::new(&c.graph, if c.coarse { Clock::Coarse } else { Clock::Distinct });
     let mut flags = vec![];
     let mut originals = vec![];
     let n = w.model.rules.len();
@@ -605,6 +608,7 @@ pub fn test_case(which: Which, budget: &Budget, c: &SchedCase, stats: &mut Stats
     if shared_cache_entry { stats.class("two-threads-one-cache-entry"); }
     if !c.fail.is_empty() || !c.missing.is_empty() { stats.class("with-failures"); }
     if c.clean { stats.class("final-op-clean"); }
+    if c.coarse { stats.class("coarse-clock"); }
     if nontrivial
     {
         stats.nontrivial(drive::key_of(c));
@@ -711,7 +715,7 @@ fn prefix() -> impl Strategy<Value = Vec<Op>>
         2 => (any::<u16>(), 0u8..5).prop_map(|(t, content)| vec![Op::Build { goal: None }, Op::Tamper { t, content }, Op::Build { goal: None }, Op::Tamper { t, content }]),
         // a cleaned workspace whose output directory the user removed
         2 => any::<u16>().prop_map(|d| vec![Op::Build { goal: None }, Op::Clean { goal: None }, Op::RemoveDir { d }]),
-        3 => gen::ops(OpMix { rule_edits: true, ruler_dir_damage: false, cleans: true, delete_leaf: false, swaps: 1, dir_ops: 1 }, 6),
+        3 => gen::ops(OpMix { rule_edits: true, ruler_dir_damage: false, cleans: true, delete_leaf: false, swaps: 1, dir_ops: 1, orphan: false }, 6),
     ]
 }
 
@@ -785,7 +789,8 @@ pub fn strategy(which: Which, max_rules: usize, extra_scheds: usize) -> impl Str
             }
         }
         let goal = if which == Which::C03 && goal.is_none() && graph.name_seed % 3 == 0 { Some(graph.name_seed.wrapping_mul(31)) } else { goal };
-        SchedCase { graph, prefix, fail, missing, goal, clean, scheds }
+        let coarse = which == Which::C06 && graph.render_seed % 3 == 1;
+        SchedCase { graph, prefix, fail, missing, goal, clean, scheds, coarse }
     })
 }
 
